@@ -16,9 +16,28 @@ COMMON_ASSUMPTIONS = [
 PROPS: Dict[str, Dict[str, Any]] = {
     "C01": {"monitor": "C01", "generators": [gen_h1.gen_c01]},
     "C02": {"monitor": "C02", "generators": [gen_h1.gen_c02]},
+    "C03": {"monitor": "C03", "generators": [gen_h1.gen_c03]},
+    "C05": {"monitor": "C05", "generators": [gen_h1.gen_c05]},
     "C06": {"monitor": "C06", "generators": [gen_h1.gen_c06]},
+    "C07": {"monitor": "C07", "generators": [gen_h1.gen_c07]},
 }
 
 
 def selftest(prop: str, monitor: str, jobs, traces, verdicts) -> Dict[str, Any]:
     return {"failed": [], "summary": "not yet implemented"}
+
+NOT_APPLICABLE: Dict[str, str] = {}
+SOURCE_COMMITS: List[str] = []
+DEFAULT_LEVEL_TEXT = (
+    "The property is restated once as a deterministic TLA+ monitor over the observation alphabet (spec/Obs.tla, "
+    "spec/props); TLC validates, event by event, every trace recorded from the real server classes (both worker "
+    "classes, virtual time, scripted applications and client) against it, and exhaustively model-checks the "
+    "implementation-shaped design specification for small constants. Stimuli are TLC-generated behaviours of the "
+    "design specification plus driver-side enumerations (segmentations, fault and crash-point placement)."
+)
+DEFAULT_LEVEL_NOTE = (
+    "Trusted: TLC, the sans-io libraries' client roles used as independent parsers, the fake transports' fidelity "
+    "to the asyncio/trio stream contracts. Bounded: design constants (2-3 requests/streams), the schedules the "
+    "scripts force. Verdicts come only from monitor clauses on traces of /repo's working tree."
+)
+DEFAULT_TECHNIQUE = "TLA+ monitor + TLC trace validation of real executions; TLC model checking of the design spec"
